@@ -816,8 +816,20 @@ def c13(v):
         if not sb or not kids:
             continue
         b = sb[0]
-        ends = [e for e in v.all(('ssd_end', 'ssd_cancel'), s)
-                if e[SEQ] > b[SEQ]]
+        # calls may overlap (a second, no-op call while the first one is in
+        # progress): pair begins and ends like parentheses
+        depth = 0
+        ends = []
+        for e in v.all(('ssd_begin', 'ssd_end', 'ssd_cancel'), s):
+            if e[SEQ] <= b[SEQ]:
+                continue
+            if e[KIND] == 'ssd_begin':
+                depth += 1
+            elif depth:
+                depth -= 1
+            else:
+                ends.append(e)
+                break
         if not ends:
             if b[SEQ] < v.ret_seq:
                 viols.append(('c13:broadcast-unfinished',
